@@ -233,13 +233,18 @@ func (e *Exec) globalVar(st *State, o *types.Var) Term {
 	s := e.sortOf(o.Type())
 	if !e.declared[name] {
 		e.declare(name, s)
-		e.assumeGlobal(e.rangeFact(Term{name, s}, o.Type()))
+		// facts about a package-level value hold on every path
+		if f := e.rangeFact(Term{name, s}, o.Type()); f.S != "true" {
+			e.globalAxiom("(assert " + f.S + ")")
+		}
+		if f := e.allocFact(Term{name, s}, o.Type(), e.alloc0); f.S != "true" {
+			e.globalAxiom("(assert " + f.S + ")")
+		}
 		if isInterface(o.Type()) && namedName(o.Type()) == "error" {
 			// package-level error values (errors.New / fmt.Errorf initialisers) are non-nil
-			e.assumeGlobal(Not(Eq(CKind(Term{name, s}), IntLit(0))))
+			e.globalAxiom("(assert " + Not(Eq(CKind(Term{name, s}), IntLit(0))).S + ")")
 			e.note("global", "package-level error variables are non-nil")
 		}
-		e.assumeGlobal(e.allocFact(Term{name, s}, o.Type(), e.alloc0))
 		e.note("global", fmt.Sprintf("package variable %s.%s read as an arbitrary constant", o.Pkg().Name(), o.Name()))
 	}
 	return Term{name, s}
@@ -1093,7 +1098,11 @@ func (e *Exec) convert(st *State, v Term, from, to types.Type, at ast.Node) Term
 			return v
 		}
 		if v.Sort == SBV64 && ts == SInt {
-			n := mk(SInt, "bv2nat", v)
+			n := e.toSort(v, SInt)
+			if tb.Kind() == types.Int || tb.Kind() == types.Int64 {
+				n = e.bindLocal("cv", n)
+				return Ite(Ge(n, pow2(63)), Sub(n, pow2(64)), n)
+			}
 			return e.wrap(n, to)
 		}
 		if v.Sort == SInt && ts == SBV64 {
@@ -1109,6 +1118,11 @@ func (e *Exec) convert(st *State, v Term, from, to types.Type, at ast.Node) Term
 		// Int -> Int
 		if fitsIn(fb, tb) {
 			return v
+		}
+		if (tb.Kind() == types.Int || tb.Kind() == types.Int64) && (fb.Kind() == types.Uint64 || fb.Kind() == types.Uint || fb.Kind() == types.Uintptr) {
+			// two's complement reinterpretation of an unsigned 64-bit value
+			v = e.bindLocal("cv", v)
+			return Ite(Ge(v, pow2(63)), Sub(v, pow2(64)), v)
 		}
 		return e.wrap(v, to)
 	}
